@@ -283,7 +283,8 @@ def make_converter(ty: IntoConverter, handlers: ConverterHandlers = ConverterHan
 
     # homogenous sequence converter
     # concrete t.Set/t.List/etc are already converted to set/list/etc by t.get_origin
-    if issubclass(base, (collections.abc.Sequence, collections.abc.Set)):
+    if issubclass(base, (collections.abc.Sequence, collections.abc.Set)) and not issubclass(base, (str, bytes, bytearray)):
+        # (subclasses of str/bytes are scalars, handled with the other subclasses of basic types below)
         # map abstract to concrete types
         new_base = _ABSTRACT_MAPPING.get(base, base)  # type: ignore
         if inspect.isabstract(new_base):
